@@ -303,6 +303,6 @@ pub fn step(ex: &mut Exec, st: &mut L1State, op: &str, toks: &[&str]) -> Option<
             let _ = sorted;
             Some(format!("violations={violations}"))
         }
-        _ => None,
+        _ => crate::exec_pb::step(ex, st, op, toks),
     }
 }
